@@ -17,9 +17,14 @@ Logged ==
   /\ \/ Ev.ev = "open" /\ OpenR
      \/ Ev.ev = "yield" /\ Parse /\ yielded' = yielded + 1 /\ Ev.i = yielded + 1
           /\ (sc.frames[yielded + 1] = "ok" => Ev.same)
+          /\ Ev.valid                                   \* arrays of the object have mutually consistent shapes
      \/ Ev.ev = "close" /\ CloseR
      \/ Ev.ev = "end" /\ pc = "done" /\ out = Ev.out /\ yielded = Ev.yielded /\ fd = Ev.fd
-          /\ (Ev.out # "LoadError" => warned = Ev.warned) /\ UNCHANGED vars
+          /\ (Ev.out # "LoadError" => warned = Ev.warned)
+          \* the message names the file; a line number, when given, is that of a line that was read
+          /\ (Ev.out \in {"LoadError", "FileFormatError"} => Ev.namesfile)
+          /\ (Ev.lineno # <<>> => (Ev.lineno[1] >= 0 /\ Ev.lineno[1] <= Ev.nread))
+          /\ UNCHANGED vars
   /\ l' = l + 1 /\ UNCHANGED tid
   /\ TLCSet(tid, IF TLCGet(tid) < l THEN l ELSE TLCGet(tid))
 TSpec == TInit /\ [][Silent \/ ParseQuiet \/ Logged]_tvars
